@@ -2,6 +2,7 @@ package main
 
 import (
 	"fmt"
+	"go/constant"
 	"go/types"
 	"strings"
 
@@ -46,7 +47,18 @@ func (x *Exec) specialCall(fr *Frame, st *State, ci ssa.CallInstruction, key str
 		if _, has := x.db.Funcs[key]; has {
 			return nil, false
 		}
-		return []string{x.freshError()}, true
+		r := x.freshError()
+		if key == "fmt.Errorf" {
+			// documented behaviour of the %w verb: the result wraps that operand, so errors.Is of the
+			// result holds for every target for which it holds of the operand
+			for _, a := range wrappedOperands(c) {
+				if types.Identical(a.Type().Underlying(), types.Universe.Lookup("error").Type().Underlying()) {
+					at := x.val(fr, st, a)
+					x.assume(st, fmt.Sprintf("(forall ((t Iface)) (! (=> (errors_is %s t) (errors_is %s t)) :pattern ((errors_is %s t))))", at, r, r))
+				}
+			}
+		}
+		return []string{r}, true
 	case key == "errors.Is":
 		if _, has := x.db.Funcs[key]; has {
 			return nil, false
@@ -54,6 +66,87 @@ func (x *Exec) specialCall(fr *Frame, st *State, ci ssa.CallInstruction, key str
 		return []string{x.vc.define("eis", "Bool", fmt.Sprintf("(errors_is %s %s)", args[0], args[1]))}, true
 	}
 	return nil, false
+}
+
+// wrappedOperands: the operands of a fmt.Errorf call that its constant format string consumes with
+// the verb %w (explicit argument indexes and * widths are not used in this code base: with either
+// present nothing is returned).
+func wrappedOperands(c *ssa.CallCommon) []ssa.Value {
+	if len(c.Args) < 2 {
+		return nil
+	}
+	k, ok := c.Args[0].(*ssa.Const)
+	if !ok || k.Value == nil {
+		return nil
+	}
+	format := constant.StringVal(k.Value)
+	if strings.Contains(format, "[") || strings.Contains(format, "*") {
+		return nil
+	}
+	var wIdx []int
+	n := 0
+	for i := 0; i < len(format); i++ {
+		if format[i] != '%' {
+			continue
+		}
+		i++
+		for i < len(format) && strings.ContainsRune("+-# 0123456789.", rune(format[i])) {
+			i++
+		}
+		if i >= len(format) {
+			break
+		}
+		if format[i] == '%' {
+			continue
+		}
+		if format[i] == 'w' {
+			wIdx = append(wIdx, n)
+		}
+		n++
+	}
+	if len(wIdx) == 0 {
+		return nil
+	}
+	sl, ok := c.Args[1].(*ssa.Slice)
+	if !ok {
+		return nil
+	}
+	arr, ok := sl.X.(*ssa.Alloc)
+	if !ok || arr.Referrers() == nil {
+		return nil
+	}
+	var out []ssa.Value
+	for _, r := range *arr.Referrers() {
+		ia, ok := r.(*ssa.IndexAddr)
+		if !ok || ia.Referrers() == nil {
+			continue
+		}
+		ik, ok := ia.Index.(*ssa.Const)
+		if !ok {
+			continue
+		}
+		idx, _ := constant.Int64Val(ik.Value)
+		want := false
+		for _, w := range wIdx {
+			if int64(w) == idx {
+				want = true
+			}
+		}
+		if !want {
+			continue
+		}
+		for _, u := range *ia.Referrers() {
+			if stv, ok := u.(*ssa.Store); ok && stv.Addr == ssa.Value(ia) {
+				switch v := stv.Val.(type) {
+				case *ssa.ChangeInterface:
+					out = append(out, v.X)
+				case *ssa.MakeInterface:
+					out = append(out, v.X)
+				}
+			}
+		}
+	}
+	return out
 }
 
 func (x *Exec) checkFieldGuards(fr *Frame, st *State, structType types.Type, field int, base, v string) {
